@@ -114,7 +114,7 @@ def _cond_return(s, acc):
                 acc.add("conditional-return")
 
 
-def render(block, ind=0, counter=None, trace_interrupts=False):
+def render(block, ind=0, counter=None, trace_interrupts=False, walrus_iter=False):
     """source lines; probe ids are pre-order statement indices"""
     if counter is None:
         counter = [0]
@@ -137,17 +137,30 @@ def render(block, ind=0, counter=None, trace_interrupts=False):
         elif k == "R1":
             lines.append("%sreturn R(%d)" % (p, i))
         else:
-            head = {"if": "if C(%d):", "wh": "while W(%d):", "for": "for v%d in IT(%%d):" % i}[k]
+            for_head = "for v%d in IT(%%d):" % i
+            if walrus_iter:
+                # the iterable holds an assignment expression (it must be evaluated in front of the
+                # comprehension the loop is lowered to)
+                for_head = "for v%d in (w%d := IT(%%d)):" % (i, i)
+            head = {"if": "if C(%d):", "wh": "while W(%d):", "for": for_head}[k]
             lines.append(p + head % i)
-            lines += render(s[1], ind + 1, counter, trace_interrupts)
+            lines += render(s[1], ind + 1, counter, trace_interrupts, walrus_iter)
             if s[2]:
                 lines.append(p + "else:")
-                lines += render(s[2], ind + 1, counter, trace_interrupts)
+                lines += render(s[2], ind + 1, counter, trace_interrupts, walrus_iter)
     return lines
 
 
-def program(block, placement, trace_interrupts=False):
+def program(block, placement, trace_interrupts=False, walrus_iter=False):
     """full source text of a skeleton in a placement"""
+    if walrus_iter:
+        global render
+        plain = render
+        try:
+            render = lambda b, i=0, c=None, t=False, w=True: plain(b, i, c, t, True)
+            return program(block, placement, trace_interrupts, False)
+        finally:
+            render = plain
     if placement == "module":
         body = render(block, 0, None, trace_interrupts)
         return "\n".join(body + ["M(9000)"]) + "\n"
